@@ -108,6 +108,15 @@ func switchToParentThread(L *LState, nargs int, haserror bool, kill bool) {
 func callGFunction(L *LState, tailcall bool) bool {
 	frame := L.currentFrame
 	gfnret := frame.Fn.GFunction(L)
+	if tailcall && gfnret < 0 {
+		// a tail-called yield (`return coroutine.yield(...)`): keep the calling
+		// frame and treat the call as an ordinary one returning all its results;
+		// the OP_RETURN that follows OP_TAILCALL hands the values given to the
+		// next resume back as the function's results
+		tailcall = false
+		frame.ReturnBase = frame.Base
+		frame.NRet = MultRet
+	}
 	if tailcall {
 		L.currentFrame = L.RemoveCallerFrame()
 	}
